@@ -119,3 +119,28 @@ def rule_i1(repo, res):
                             witness=None if w is None else f"U+{w:04X}"))
     res.floor("grammar classes with char_allowed", n, 5)
     res.stat("evaluations", 1114112 * n, add=False)
+
+
+def rule_tables_allowed(repo, res):
+    """WS-ALLOWED: every character a grammar itself uses to separate or delimit tokens -- its white space, reserved
+    characters, quotes, units delimiters, statement delimiters and the characters of its comment delimiters -- is in the
+    set its own char_allowed() accepts (interval analysis over all code points).  Otherwise the grammar's own layout
+    characters are refused by the lexer: the same label loads with one kind of line end and not with another."""
+    from .. import interval, tables
+    n = 0
+    for c in tables.grammar_classes(repo):
+        g = tables.grammar_instance(repo, c)
+        t, f, e = interval.CharAllowed(repo, c).accepted()
+        groups = (("whitespace", g.whitespace), ("reserved_characters", g.reserved_characters), ("quotes", g.quotes),
+                  ("units_delimiters", g.units_delimiters), ("delimiters", g.delimiters),
+                  ("comments", [ch for pair in g.comments for d in pair for ch in d]))
+        for name, chars in groups:
+            bad = sorted({ch for x in chars for ch in x if not any(a <= ord(ch) <= b for a, b in t.ivs)})
+            n += 1
+            res.oblige("WS-ALLOWED", f"{c}: every character of {name} is accepted by {c}.char_allowed", ok=not bad)
+            if bad:
+                res.add(Finding("WS-ALLOWED", f"grammar.{c}", f"{name} not allowed",
+                                f"{c}.{name} contains {bad} which {c}.char_allowed refuses (accepted set {t!r}): text "
+                                "laid out with these characters of the grammar's own tables is rejected by the lexer",
+                                witness=bad[0]))
+    res.floor("grammar table groups checked against char_allowed", n, 20)
